@@ -2,6 +2,7 @@
 C19 — PacketSkipper equals deleting packets; PacketsParser sees each unit exactly once.
 -/
 import Astits.Model.Demux
+import Astits.Proofs.DemuxRuns
 namespace Astits.C19
 
 /-- the skipper is consulted exactly once per packet read: each consultation appends exactly the packet shown
@@ -46,5 +47,193 @@ theorem parser_logged_once (d : Demux) (ps : List Packet) (h : d.parser ≠ .non
   unfold Demux.logParser; simp [h]
 
 example : (parseData [] .failing []).isOk = false := by decide
+
+/-! ## S1 — whole-stream filter theorem for `NextPacket`
+
+The stream is a list `cs` of packets of `n` bytes each (`n` is the explicit packet size, e.g. 188, so there is no
+auto-detection), read through a fault-free reader of any kind. `survivors s 0 cs` is the stream with the packets
+selected by the skipper `s` deleted (`Proofs/DemuxRuns.lean`; for a pure predicate it is `List.filter`,
+`survivors_pred`; for a script the decisions are threaded in consultation order). `packetsToEOF` collects the results
+of repeated `NextPacket` calls — packets *and* errors such as a missing sync byte — up to the first
+`ErrNoMorePackets`. -/
+
+/-- a freshly constructed demuxer with explicit packet size `n` over a fault-free reader -/
+def fresh (data : Bytes) (kind : ReaderKind) (n : Nat) (s : Skipper) (prs : ParserKind) : Demux :=
+  { r := { data := data, kind := kind }, optPacketSize := n, skipper := s, parser := prs }
+
+theorem fresh_rem (data : Bytes) (kind : ReaderKind) (n : Nat) (s : Skipper) (prs : ParserKind) :
+    (fresh data kind n s prs).r.Rem data := ⟨rfl, rfl⟩
+
+/-- **a PacketSkipper is equivalent to deleting the packets it selects (packet API)**: with any skipper (none,
+pure predicate, stateful script) the results of `NextPacket` up to the end of the stream are exactly those of a
+demuxer without skipper on the stream with the selected packets removed — namely the parse result of every
+surviving packet, in order; a skipped packet is never returned; the skipper has been shown exactly the packets
+`consultLog` lists; and the next call reports the end of the stream. Any reader kind, any custom parser, any
+sufficient fuel (`d.r.data.length + 2`, the bound the model uses, is sufficient). -/
+theorem skipper_filters_packets (n : Nat) (hn : 0 < n) (cs : List Bytes) (hcs : Chunks n cs) (s : Skipper)
+    (kind kind' : ReaderKind) (prs prs' : ParserKind) (fuel fuel' : Nat)
+    (hf : cs.length + 1 ≤ fuel) (hf' : (survivors s 0 cs).length + 1 ≤ fuel') :
+    ((fresh cs.flatten kind n s prs).packetsToEOF fuel).1
+      = ((fresh (survivors s 0 cs).flatten kind' n .none prs').packetsToEOF fuel').1 ∧
+    ((fresh cs.flatten kind n s prs).packetsToEOF fuel).1 = (survivors s 0 cs).map pktRes ∧
+    ((fresh cs.flatten kind n s prs).packetsToEOF fuel).2.skipLog = consultLog s 0 cs ∧
+    ((fresh cs.flatten kind n s prs).packetsToEOF fuel).2.nextPacket.1 = .err .eof := by
+  have h1 := packetsToEOF_src n hn s fuel cs hcs 0 (fresh cs.flatten kind n s prs) rfl rfl (Or.inr ⟨rfl, rfl⟩)
+    (fresh_rem _ _ _ _ _) hf
+  have hsv : Chunks n (survivors s 0 cs) := hcs.survivors s 0
+  have h2 := packetsToEOF_src n hn .none fuel' (survivors s 0 cs) hsv 0
+    (fresh (survivors s 0 cs).flatten kind' n .none prs') rfl rfl (Or.inr ⟨rfl, rfl⟩) (fresh_rem _ _ _ _ _) hf'
+  rw [survivors_none] at h2
+  refine ⟨by rw [h1.1, h2.1], h1.1, ?_, nextPacket_at_eof n hn _ h1.2.2.2 h1.2.2.1⟩
+  rw [h1.2.1]; rfl
+
+/-- the fuel of the model suffices -/
+theorem skipper_filters_packets_fuel (n : Nat) (hn : 0 < n) (cs : List Bytes) (hcs : Chunks n cs) :
+    cs.length + 1 ≤ cs.flatten.length + 2 := by
+  rw [hcs.flatten_length]
+  have : cs.length ≤ n * cs.length := Nat.le_mul_of_pos_left _ hn
+  omega
+
+/-- for a pure predicate on header and adaptation field the surviving stream is a `List.filter`, and the
+predicate has been consulted **exactly once per packet, in stream order, on the packet with header and adaptation
+field parsed and the payload not yet extracted** (`shownOf`), whatever it answered -/
+theorem pred_skipper_filters_packets (n : Nat) (hn : 0 < n) (cs : List Bytes) (hcs : Chunks n cs) (f : Packet → Bool)
+    (kind kind' : ReaderKind) (prs prs' : ParserKind) :
+    let keep := cs.filter (fun c => !predSkips f c)
+    let d := fresh cs.flatten kind n (.pred f) prs
+    let d' := fresh keep.flatten kind' n .none prs'
+    (d.packetsToEOF (d.r.data.length + 2)).1 = (d'.packetsToEOF (d'.r.data.length + 2)).1 ∧
+    (d.packetsToEOF (d.r.data.length + 2)).1 = keep.map pktRes ∧
+    (d.packetsToEOF (d.r.data.length + 2)).2.skipLog = cs.filterMap shownOf ∧
+    (d'.packetsToEOF (d'.r.data.length + 2)).2.skipLog = [] := by
+  intro keep d d'
+  have hk : keep = survivors (.pred f) 0 cs := (survivors_pred f 0 cs).symm
+  have hck : Chunks n keep := fun c hc => hcs c ((List.mem_filter.mp hc).1)
+  have h := skipper_filters_packets n hn cs hcs (.pred f) kind kind' prs prs' (cs.flatten.length + 2)
+    (keep.flatten.length + 2) (skipper_filters_packets_fuel n hn cs hcs)
+    (by rw [← hk]; exact skipper_filters_packets_fuel n hn keep hck)
+  rw [← hk] at h
+  refine ⟨h.1, h.2.1, ?_, ?_⟩
+  · rw [← consultLog_eq (.pred f) (by simp) 0 cs]; exact h.2.2.1
+  · have h2 := packetsToEOF_src n hn .none (d'.r.data.length + 2) keep hck 0 d' rfl rfl (Or.inr ⟨rfl, rfl⟩)
+      (fresh_rem _ _ _ _ _) (skipper_filters_packets_fuel n hn keep hck)
+    rw [h2.2.1, consultLog_none]; rfl
+
+/-- **a skipped packet is never returned**: every packet `NextPacket` returns was shown to the predicate and kept -/
+theorem skipped_never_returned (n : Nat) (hn : 0 < n) (cs : List Bytes) (hcs : Chunks n cs) (f : Packet → Bool)
+    (kind : ReaderKind) (prs : ParserKind) (p : Packet)
+    (hp : Res.ok p ∈ ((fresh cs.flatten kind n (.pred f) prs).packetsToEOF (cs.flatten.length + 2)).1) :
+    f (shown p) = false ∧ shown p ∈ ((fresh cs.flatten kind n (.pred f) prs).packetsToEOF (cs.flatten.length + 2)).2.skipLog := by
+  have h := pred_skipper_filters_packets n hn cs hcs f kind kind prs prs
+  dsimp only at h
+  have h2 : ((fresh cs.flatten kind n (.pred f) prs).packetsToEOF (cs.flatten.length + 2)).1
+      = (cs.filter fun c => !predSkips f c).map pktRes := h.2.1
+  rw [h2] at hp
+  obtain ⟨c, hc, hcp⟩ := List.mem_map.mp hp
+  obtain ⟨hc1, hc2⟩ := List.mem_filter.mp hc
+  have hlog : ((fresh cs.flatten kind n (.pred f) prs).packetsToEOF (cs.flatten.length + 2)).2.skipLog
+      = cs.filterMap shownOf := h.2.2.1
+  rw [hlog]
+  unfold pktRes at hcp
+  unfold predSkips at hc2
+  cases hpp : (parsePacket none).val c with
+  | panic => rw [hpp] at hcp; cases hcp
+  | err e => rw [hpp] at hcp; cases hcp
+  | ok q =>
+    rw [hpp] at hcp hc2
+    simp only [Res.ok.injEq] at hcp
+    subst hcp
+    refine ⟨by simpa using hc2, List.mem_filterMap.mpr ⟨c, hc1, ?_⟩⟩
+    unfold shownOf; rw [hpp]
+
+/-- the number of consultations equals the number of packets read (every packet of a well-formed stream parses) -/
+theorem consultations_eq_packets_read (n : Nat) (hn : 0 < n) (cs : List Bytes) (hcs : Chunks n cs) (s : Skipper)
+    (hs : s ≠ .none) (hp : ∀ c ∈ cs, parses c = true) (kind : ReaderKind) (prs : ParserKind) (fuel : Nat)
+    (hf : cs.length + 1 ≤ fuel) :
+    ((fresh cs.flatten kind n s prs).packetsToEOF fuel).2.skipLog.length = cs.length := by
+  have h := skipper_filters_packets n hn cs hcs s kind kind prs prs fuel (cs.length + 1) hf
+    (by have := survivors_length_le s 0 cs; omega)
+  rw [h.2.2.1, consultLog_eq s hs, filterMap_shownOf_length cs hp]
+
+/-! non-vacuity: three 188-byte packets on PIDs 17, 18, 17; the predicate "PID = 18" deletes the middle one -/
+
+def tsPkt (pid cc : Nat) : Bytes := [0x47, pid / 256 % 32, pid % 256, 0x10 + cc % 16] ++ List.replicate 184 0xAB
+
+def demoStream : List Bytes := [tsPkt 17 0, tsPkt 18 0, tsPkt 17 1]
+
+example : Chunks 188 demoStream := by decide +kernel
+example : ∀ c ∈ demoStream, parses c = true := by decide +kernel
+example : demoStream.filter (fun c => !predSkips (fun p => p.header.pid == 18) c) = [tsPkt 17 0, tsPkt 17 1] := by
+  decide +kernel
+example : (((fresh demoStream.flatten .seek 188 (.pred fun p => p.header.pid == 18) .none).packetsToEOF 566).1.map
+    fun x => match x with | .ok p => some (p.header.pid, p.header.continuityCounter) | _ => none)
+      = [some (17, 0), some (17, 1)] := by decide +kernel
+example : ((fresh demoStream.flatten .seek 188 (.pred fun p => p.header.pid == 18) .none).packetsToEOF 566).2.skipLog.length
+    = 3 := by decide +kernel
+/-- a stateful script (skip, keep, skip) -/
+example : survivors (.script [true, false, true]) 0 demoStream = [tsPkt 18 0] := by decide +kernel
+
+/-! ## S2 — whole-stream filter theorem for `NextData` (and for any mix of calls)
+
+Same setting as S1. The demuxer with the skipper on the stream `cs` and the demuxer without skipper on the surviving
+packets run in lock step (`Sim`, `Proofs/DemuxRuns.lean`): every call returns the same result, and after every call
+pool, program map, buffered data and parser log are identical — the pool never sees a skipped packet. -/
+
+theorem fresh_sim (n : Nat) (cs : List Bytes) (hcs : Chunks n cs) (s : Skipper) (kind kind' : ReaderKind)
+    (prs : ParserKind) :
+    Sim n s cs (fresh cs.flatten kind n s prs) (fresh (survivors s 0 cs).flatten kind' n .none prs) :=
+  ⟨hcs, rfl, rfl, fresh_rem _ _ _ _ _, fresh_rem _ _ _ _ _, Or.inr ⟨rfl, rfl⟩, Or.inr ⟨rfl, rfl⟩, ⟨rfl, rfl, rfl, rfl, rfl⟩⟩
+
+/-- **a PacketSkipper is equivalent to deleting the packets it selects (every call sequence)**: for ANY sequence of
+`NextPacket` / `NextData` calls the results with the skipper equal the results without skipper on the stream with the
+selected packets removed; afterwards the pools, program maps, data buffers and parser logs coincide. Any skipper
+(none, pure predicate, stateful script), any reader kinds, any custom parser. -/
+theorem skipper_filters_calls (n : Nat) (hn : 0 < n) (cs : List Bytes) (hcs : Chunks n cs) (s : Skipper)
+    (kind kind' : ReaderKind) (prs : ParserKind) (calls : List ApiCall) :
+    (fresh cs.flatten kind n s prs).runCalls calls
+      = (fresh (survivors s 0 cs).flatten kind' n .none prs).runCalls calls ∧
+    DataSame ((fresh cs.flatten kind n s prs).after calls)
+      ((fresh (survivors s 0 cs).flatten kind' n .none prs).after calls) :=
+  runCalls_sim n hn s calls cs _ _ (fresh_sim n cs hcs s kind kind' prs)
+
+/-- **S2: the data API.** The sequence of `NextData` results up to the first `ErrNoMorePackets` (within any number
+`fuel` of calls) with the skipper = the sequence without skipper on the filtered stream -/
+theorem skipper_filters_data (n : Nat) (hn : 0 < n) (cs : List Bytes) (hcs : Chunks n cs) (s : Skipper)
+    (kind kind' : ReaderKind) (prs : ParserKind) (fuel : Nat) :
+    ((fresh cs.flatten kind n s prs).dataToEOF fuel).1
+      = ((fresh (survivors s 0 cs).flatten kind' n .none prs).dataToEOF fuel).1 ∧
+    ((fresh (survivors s 0 cs).flatten kind' n .none prs).dataToEOF fuel).2.pool
+      = ((fresh cs.flatten kind n s prs).dataToEOF fuel).2.pool := by
+  have := dataToEOF_sim n hn s fuel cs _ _ (fresh_sim n cs hcs s kind kind' prs)
+  exact ⟨this.1, this.2.pool⟩
+
+/-- for a pure predicate: the filtered stream is `List.filter` -/
+theorem pred_skipper_filters_data (n : Nat) (hn : 0 < n) (cs : List Bytes) (hcs : Chunks n cs) (f : Packet → Bool)
+    (kind kind' : ReaderKind) (prs : ParserKind) (fuel : Nat) :
+    ((fresh cs.flatten kind n (.pred f) prs).dataToEOF fuel).1
+      = ((fresh (cs.filter fun c => !predSkips f c).flatten kind' n .none prs).dataToEOF fuel).1 := by
+  have := (skipper_filters_data n hn cs hcs (.pred f) kind kind' prs fuel).1
+  rw [survivors_pred] at this
+  exact this
+
+/-! non-vacuity: PES units on PIDs 257 and 258 (two packets each); the predicate "PID = 258" removes the second unit -/
+
+def pesPkt (pid cc : Nat) (pusi : Bool) (fill : Nat) : Bytes :=
+  [0x47, (if pusi then 0x40 else 0) + pid / 256 % 32, pid % 256, 0x10 + cc % 16] ++
+    (if pusi then [0, 0, 1, 0xE0, 0, 0, 0x80, 0, 0] ++ List.replicate 175 fill else List.replicate 184 fill)
+
+def demoData : List Bytes :=
+  [pesPkt 257 0 true 1, pesPkt 258 0 true 2, pesPkt 257 1 false 3, pesPkt 258 1 false 4, pesPkt 257 2 true 5]
+
+example : Chunks 188 demoData := by decide +kernel
+example : survivors (.pred fun p => p.header.pid == 258) 0 demoData
+    = [pesPkt 257 0 true 1, pesPkt 257 1 false 3, pesPkt 257 2 true 5] := by decide +kernel
+/-- with the skipper: two PES units of PID 257 (the second at the final drain), nothing of PID 258 -/
+example : (((fresh demoData.flatten .seek 188 (.pred fun p => p.header.pid == 258) .none).dataToEOF 5).1.map
+    fun x => match x with | .ok d => some (d.pid, (d.pes.map (·.data.length)).getD 0) | _ => none)
+      = [some (257, 359), some (257, 175)] := by decide +kernel
+/-- without it PID 258 is delivered too -/
+example : (((fresh demoData.flatten .seek 188 .none .none).dataToEOF 5).1.map
+    fun x => match x with | .ok d => some d.pid | _ => none) = [some 257, some 257, some 258] := by decide +kernel
 
 end Astits.C19
